@@ -2,6 +2,7 @@
 tables), wrapping probes in the coupon table, masked row folding in the union, reduce_k dominance."""
 from fractions import Fraction
 import re
+import astu
 from astu import C, ctxt, gt_pair, eq_const, reach, reach_txt, ctext, strip, strip_all, walk, walkp, txt, short, is_this_field, field_name, stmts_of, always_throws, functions_by, local_decls
 from vlib.core import ob
 
@@ -142,7 +143,9 @@ def probe_rules(facts):
             advs = []
             walk(L, lambda n: advs.append(n) if (n.get("k") == "Assign" and strip(n["l"]).get("k") == "Ref" and strip(n["l"]).get("d") in cursors) or (n.get("k") == "Un" and n.get("op") in ("++", "--") and strip(n["e"]).get("k") == "Ref" and strip(n["e"]).get("d") in cursors) else None)
             for a in advs:
-                if a.get("k") == "Assign" and a.get("op") == "=" and txt(a["r"], sa).replace(" ", "") == "((%s+1)&((1<<lg_size)-1))" % strip(a["l"])["n"]:
+                with astu.with_getters(fns):
+                    adv_t = txt(a["r"], sa).replace(" ", "") if a.get("k") == "Assign" else ""
+                if a.get("k") == "Assign" and a.get("op") == "=" and adv_t == "((%s+1)&((1<<lg_size)-1))" % strip(a["l"])["n"]:
                     n_adv += 1
                 else:
                     probs.append("probe advanced by `%s` (not `(p + 1) & mask`)" % txt(a))
